@@ -176,6 +176,9 @@ FORMS = [
     ('setitem', '_d{n} = {{}}\n_d{n}["k"] = {x}\n{v} = _d{n}["k"]', False),
     ('try', 'try:\n    {v} = {x}\nexcept Exception:\n    {v} = {y}', True),
     ('ifelse', 'if len("ab") > 1:\n    {v} = {x}\nelse:\n    {v} = {y}', True),
+    ('ifelif', 'if len("ab") > 1:\n    {v} = {x}\nelif 0:\n    {v} = 1.5\nelse:\n    {v} = {y}', True),
+    ('ifelif2', 'if len("ab") > 5:\n    {v} = {x}\nelif len("ab") > 1:\n    {v} = {y}\nelif False:\n    {v} = 1\nelse:\n    {v} = None', True),
+    ('while_else', '{v} = {x}\nwhile len("ab") > 5:\n    {v} = {y}\n    break', True),
     ('alias', '{v} = {x}', False),
     ('walrus', '({v} := {x})', False),
     ('aug', '{v} = 1\n{v} += 2', False),
